@@ -213,6 +213,18 @@ func replay(sub string, raw json.RawMessage) ([]h.Failure, error) {
 		}
 		return checkVarInputText(p.Src), nil
 	}
+	if sub == "exhaustion" {
+		var c exhaustCase
+		if err := json.Unmarshal(raw, &c); err != nil {
+			return nil, err
+		}
+		for _, full := range exhaustionCases() {
+			if full.Name == c.Name {
+				c = full
+			}
+		}
+		return checkExhaustion(c), nil
+	}
 	if sub == "handler" {
 		var c handlerCase
 		if err := json.Unmarshal(raw, &c); err != nil {
